@@ -76,11 +76,12 @@ func partObf(a *vh.Args) {
 				}
 				id := fmt.Sprintf("obf=%s;key=%d;len=%d", ob.name, k, n)
 				tag := pat(n, byte(k))
-				var enc, dec []byte
+				var enc, dec, sent []byte
 				var err, derr error
 				if p, msg, site := venum.Guard(func() {
 					enc, err = ob.o.Obfuscate(tag, pub)
 					if err == nil {
+						sent = append([]byte{}, enc...)
 						dec, derr = ob.o.TryReveal(enc, priv)
 					}
 				}); p {
@@ -99,8 +100,18 @@ func partObf(a *vh.Args) {
 					e.Violation("obfuscator-roundtrip:"+ob.name+":"+cls, fmt.Sprintf("%s: reveal(obfuscate(tag)) = %x, %v; want the %d-byte tag", id, dec, derr, n), map[string]any{"case": id})
 					continue
 				}
+				// a station tries each of its keys on the same received bytes (key rotation), and more than one
+				// transport looks at them: revealing must leave the bytes as they were received
+				if !bytes.Equal(enc, sent) {
+					e.Violation("reveal-alters-received-bytes:"+ob.name, fmt.Sprintf("%s: after a successful reveal the encoded tag differs from what was received", id), map[string]any{"case": id})
+					enc = append([]byte{}, sent...)
+				}
 				if ob.keyed && n >= 8 {
 					wd, werr := ob.o.TryReveal(enc, wpriv)
+					if d3, e3 := ob.o.TryReveal(enc, priv); !bytes.Equal(enc, sent) || e3 != nil || !bytes.Equal(d3, tag) {
+						e.Violation("reveal-after-wrong-key:"+ob.name, fmt.Sprintf("%s: after an attempt with another key the right key reveals %x, %v (bytes unchanged: %v)", id, d3, e3, bytes.Equal(enc, sent)), map[string]any{"case": id})
+						enc = append([]byte{}, sent...)
+					}
 					if werr == nil && bytes.Equal(wd, tag) {
 						e.Violation("wrong-key-reveals:"+ob.name, id, map[string]any{"case": id})
 					}
